@@ -10,8 +10,13 @@
 (*   erow : a |-> i, cmp |-> <<..>>, ops |-> <<..>>                                          *)
 (*                cmp[j] = rpm_version_compare(evrs[i], evrs[j]),                            *)
 (*                ops[j] = <<x<y, x==y, x>y, x<=y, x>=y, x!=y>> of the InstalledRpm objects  *)
-(*   sel  : pk |-> <<indices into evrs>>, mx |-> m, mn |-> n                                 *)
-(*                positions in pk of the objects returned by newest / oldest                 *)
+(*   sel  : via |-> which RpmList holds the packages (InstalledRpms from JSON / rpm -qa      *)
+(*                lines, YumListInstalled / YumListAvailable, a class of its own using the   *)
+(*                mixin, an InstalledRpms whose packages were extended after parsing),       *)
+(*          pk |-> <<indices into evrs>> in the order given to it, n |-> how many of them it *)
+(*                holds (-1: building it raised), mx / mn / gmx / gmn |-> positions in pk of *)
+(*                the objects returned by newest / oldest / get_max / get_min                *)
+(*                (0: none of the packages, -1: raised)                                      *)
 (*   table: a |-> i, b |-> j, r |-> expected  (upstream rpmvercmp.at row: validates the      *)
 (*                transcription; a rejection is a machinery failure, see p_rpm.py)           *)
 (* An observed exception is recorded as result 99 (ops: the empty tuple).   *)
@@ -34,7 +39,9 @@ VRowOK  == \A j \in DOMAIN T.strs : Ev.rs[j] = VerCmp(S(Ev.a), S(j))
 ERowOK  == \A j \in DOMAIN T.evrs :
               LET c == EvrCmp(E(Ev.a), E(j)) IN Ev.cmp[j] = c /\ Ev.ops[j] = OpsOf(c)
 PkOf    == [i \in DOMAIN Ev.pk |-> E(Ev.pk[i])]
-SelOK   == IsMaxAt(PkOf, Ev.mx) /\ IsMinAt(PkOf, Ev.mn)
+SelOK   == /\ Ev.n = Len(Ev.pk)                                    \* the list really holds the packages
+           /\ IsMaxAt(PkOf, Ev.mx) /\ IsMinAt(PkOf, Ev.mn)           \* newest / oldest
+           /\ IsMaxAt(PkOf, Ev.gmx) /\ IsMinAt(PkOf, Ev.gmn)         \* get_max / get_min
 TableOK == VerCmp(S(Ev.a), S(Ev.b)) = Ev.r
 
 WellFormed ==
@@ -56,7 +63,7 @@ Accepts ==
 (* number of calls an event stands for (reported in STAT) *)
 Calls == CASE Ev.ev = "vrow" -> Len(T.strs)
            [] Ev.ev = "erow" -> 7 * Len(T.evrs)
-           [] Ev.ev = "sel"  -> 2
+           [] Ev.ev = "sel"  -> 4
            [] OTHER -> 1
 
 (* ---- diagnosis: failing clause + the branch of the reference that decides *)
@@ -80,10 +87,21 @@ DiagE ==
             [clause |-> "RichOps:" \o OpNames[o] \o ":when" \o Str(d.r) \o ":got" \o ToString(Ev.ops[j][o]),
              at |-> <<Ev.a, j>>]
 
+Where(m) == IF m = -1 THEN "raised" ELSE IF m \in DOMAIN Ev.pk THEN "not-extremal" ELSE "not-a-member"
 DiagS ==
-    IF ~IsMaxAt(PkOf, Ev.mx)
-    THEN [clause |-> IF Ev.mx \in DOMAIN Ev.pk THEN "Newest:not-a-maximum" ELSE "Newest:not-a-member", at |-> <<Ev.mx>>]
-    ELSE [clause |-> IF Ev.mn \in DOMAIN Ev.pk THEN "Oldest:not-a-minimum" ELSE "Oldest:not-a-member", at |-> <<Ev.mn>>]
+    IF Ev.n = -1 THEN [clause |-> "Lookup:building-the-list-raised:via-" \o Ev.via, at |-> <<>>]
+    ELSE IF Ev.n # Len(Ev.pk) THEN [clause |-> "Lookup:packages-lost:via-" \o Ev.via, at |-> <<>>]
+    ELSE IF ~IsMaxAt(PkOf, Ev.mx)
+    THEN [clause |-> "Newest:" \o (IF Where(Ev.mx) = "not-extremal" THEN "not-a-maximum" ELSE Where(Ev.mx))
+                     \o ":via-" \o Ev.via, at |-> <<Ev.mx>>]
+    ELSE IF ~IsMinAt(PkOf, Ev.mn)
+    THEN [clause |-> "Oldest:" \o (IF Where(Ev.mn) = "not-extremal" THEN "not-a-minimum" ELSE Where(Ev.mn))
+                     \o ":via-" \o Ev.via, at |-> <<Ev.mn>>]
+    ELSE IF ~IsMaxAt(PkOf, Ev.gmx)
+    THEN [clause |-> "GetMax:" \o (IF Where(Ev.gmx) = "not-extremal" THEN "not-a-maximum" ELSE Where(Ev.gmx))
+                     \o ":via-" \o Ev.via, at |-> <<Ev.gmx>>]
+    ELSE [clause |-> "GetMin:" \o (IF Where(Ev.gmn) = "not-extremal" THEN "not-a-minimum" ELSE Where(Ev.gmn))
+                     \o ":via-" \o Ev.via, at |-> <<Ev.gmn>>]
 
 Diagnose ==
     IF ~WellFormed THEN [clause |-> "malformed-event", at |-> <<>>]
